@@ -10,6 +10,14 @@ one-token expression that always fits.
 
 Constructs of the grammar that the current tool rejects are *not* generated;
 they are listed in `REJECTED_CONSTRUCTS` with a minimal example.
+
+Deliberate narrowings of §4.1 (the tool accepts the wider forms):
+  * every identifier has one role in the file (names are never reused) and
+    ordinary identifiers never start with `g_ t_ s_ u_ e_`, so that an edit
+    operator can tell the roles apart;
+  * `break ;` / `continue ;` are written with the space the tool demands;
+  * member names, called-but-undefined functions and macro operands are drawn
+    freely: the programs are lexically and syntactically C, not type-correct.
 """
 
 import collections
@@ -24,11 +32,60 @@ MAX_FUNCS = 5
 MAX_PARAMS = 4
 MAX_DECLS = 5
 
-# (description, minimal example (the lines that matter), diagnostics of the tool)
+# Constructs of the §4.1 grammar that the current tool refuses and that are
+# therefore never generated: (description, minimal example, diagnostics).
+# The example is the text that follows `header42("x.c")`; the diagnostics are
+# the Error-level (level, code, line) the tool gives for that file.
+_F = "\nint\tf(int a, int b, char **p)\n{\n%s}\n"
+
 REJECTED_CONSTRUCTS = [
-    ("cast applied to a character constant: Expr ::= '(' Type Stars ')' Chr",
-     "\ta = (int)'c';\n",
-     [("Error", "SPC_AFTER_PAR")]),
+    ("cast applied to a character constant: '(' Type ')' Chr",
+     _F % "\treturn ((int)'c');\n",
+     [("Error", "SPC_AFTER_PAR", 15)]),
+    ("unary minus applied to a character constant: Un Chr",
+     _F % "\treturn (-'c');\n",
+     [("Error", "SPC_AFTER_OPERATOR", 15)]),
+    ("bitwise not applied to a character constant: Un Chr",
+     _F % "\treturn (~'c');\n",
+     [("Error", "SPC_AFTER_OPERATOR", 15)]),
+    ("unary minus / bitwise not applied to a string literal (Un Str; not valid "
+     "C either, listed because the grammar derives it)",
+     _F % "\treturn (-\"s\");\n",
+     [("Error", "SPC_AFTER_OPERATOR", 15)]),
+    ("string literal as left operand of '*' (Expr '*' Expr; not valid C either)",
+     _F % "\treturn (\"s\" * 3);\n",
+     [("Error", "SPC_AFTER_POINTER", 15)]),
+    ("'*' after a cast applied to a parenthesised expression",
+     _F % "\treturn ((int)(a + b) * b);\n",
+     [("Error", "SPC_AFTER_POINTER", 15)]),
+    ("'*' after a group that contains `<typedef name> *)`, e.g. a call whose "
+     "last argument is sizeof(t_x *): the group is taken for a cast",
+     _F % "\treturn (f(sizeof(t_x *)) * 3);\n",
+     [("Error", "SPC_AFTER_POINTER", 15)]),
+    ("'*' after a double index whose first index ends with a cast string",
+     _F % "\treturn (p[(char *)\"s\"][a] * b);\n",
+     [("Error", "SPC_AFTER_POINTER", 15)]),
+    ("increment inside the index of an incremented lvalue: LV ('++'|'--') with "
+     "LV ::= id '[' Expr ']' and Expr containing ++/--",
+     _F % "\tp[++a]--;\n\treturn (a);\n",
+     [("Error", "MULT_ASSIGN_LINE", 15)]),
+    ("`break;` / `continue;` as written in the grammar; the tool (and the Norm: "
+     "a keyword is followed by a space) wants `break ;`, which is what is "
+     "generated",
+     _F % "\twhile (a)\n\t\tbreak;\n\treturn (a);\n",
+     [("Error", "SPACE_AFTER_KW", 16)]),
+    ("brace-less Block whose single statement is a control structure with a "
+     "braced body",
+     _F % "\twhile (a)\n\t\tif (b)\n\t\t{\n\t\t\ta++;\n\t\t}\n\treturn (a);\n",
+     [("Error", "MULT_IN_SINGLE_INSTR", 17)]),
+    ("brace-less Block whose single statement is an if with an else branch",
+     _F % ("\twhile (a)\n\t\tif (b)\n\t\t\ta++;\n\t\telse\n\t\t\tb++;\n"
+           "\treturn (a);\n"),
+     [("Error", "TOO_MANY_TAB", 18), ("Error", "TOO_MANY_TAB", 19)]),
+    ("a `//` comment directly below the 42 header (no empty line): it is read "
+     "as part of the header",
+     "// c" + _F % "\treturn (a);\n",
+     [("Error", "INVALID_HEADER", 12)]),
 ]
 
 KEYWORDS = frozenset("""
@@ -480,12 +537,21 @@ class _Gen:
         return self.prim(sc, nodes)
 
     def fit_expr(self, sc, room, nodes=None):
-        """An expression of display width <= room; shrinks the node budget."""
+        """An expression of display width <= room; shrinks the node budget.
+
+        A draw that does not fit is undone (identifiers, production counts) so
+        that the metadata only speaks of what is in the text.
+        """
         nodes = self.max_nodes if nodes is None else nodes
         while nodes >= 1:
+            saved = (set(self.used), list(self.members), list(self.externals),
+                     collections.Counter(self.prod))
             text = self.expr(sc, nodes)
             if len(text) <= room:
                 return text
+            self.used, self.members, self.externals = saved[:3]
+            self.prod.clear()
+            self.prod.update(saved[3])
             self.prod["(shrink)"] += 1
             nodes //= 2
         name = self.any_name(sc)
@@ -678,8 +744,8 @@ class _Gen:
         return "*" * self.rng.choice([0, 0, 0, 0, 1, 1, 2])
 
     def var_type(self, stars):
-        t = self.type_name(allow_void=bool(stars))
-        return t
+        """Type of a variable / parameter / return value; void needs a star."""
+        return self.type_name(allow_void=bool(stars))
 
     def const_expr(self, pointer_char=False):
         """Initialiser of a global / static: Const, Chr, Str or a macro."""
@@ -704,7 +770,6 @@ class _Gen:
         if n == 0:
             self.prod["Params.void"] += 1
             return "void", 0
-        self.prod["Params.list"] += 1
         maxlen = 15
         while True:
             parts = []
@@ -719,6 +784,10 @@ class _Gen:
                 break
             self.prod["(shrink)"] += 1
             n -= 1
+            if n == 0:
+                self.prod["Params.void"] += 1
+                return "void", 0
+        self.prod["Params.list"] += 1
         per_name = max(1, min(maxlen, (room - fixed) // n))
         texts = []
         for const, t, s in parts:
@@ -811,6 +880,7 @@ class _Gen:
         self.funcs.append(name)
 
     def stmt_line_raw(self, kind, depth, text):
+        """A body line whose text already carries its indentation."""
         ln = self.emit(text)
         self.p.statements.append({"line": ln, "kind": kind, "depth": depth})
 
@@ -900,7 +970,6 @@ class _Gen:
             elif r < 7:
                 self.prod["Define.str"] += 1
                 value = self.string(maxlen=20)
-                self.note_literals_later = True
             elif r < 8:
                 self.prod["Define.chr"] += 1
                 value = self.char()
@@ -1045,7 +1114,6 @@ class _Gen:
         self.prod["HFile"] += 1
         guard = guard_of(name)
         self.used.add(guard)
-        self.guard = guard
         first = self.emit("#ifndef " + guard)
         self.item("guard_open", first, self.emit("# define " + guard))
         self.empty()
